@@ -270,7 +270,7 @@ def build(desc: Dict[str, Any], W: int, an: Dict[str, Any]):
 def _console(W: int):
     from rich.console import Console
 
-    return Console(width=W, file=io.StringIO(), color_system="truecolor", force_terminal=True,
+    return Console(width=W, height=25, file=io.StringIO(), color_system="truecolor", force_terminal=True,
                    legacy_windows=False, _environ={})
 
 
@@ -802,7 +802,7 @@ def _cell_variants(desc, path):
             yield d
 
 
-def minimise(desc: Dict[str, Any], W: int, clause: str, budget: int = 600):
+def minimise(desc: Dict[str, Any], W: int, clause: str, budget: int = 600, deadline: Optional[float] = None):
     cur = copy.deepcopy(desc)
     best = _still_fails(cur, W, clause)
     if best is None:
@@ -811,6 +811,8 @@ def minimise(desc: Dict[str, Any], W: int, clause: str, budget: int = 600):
     spent = 0
     progress = True
     while progress and spent < budget:
+        if deadline is not None and time.time() > deadline:
+            break
         progress = False
         delta = W - analyse(cur)["smin"]
         for d in _variants(cur):
@@ -846,7 +848,7 @@ def minimise(desc: Dict[str, Any], W: int, clause: str, budget: int = 600):
 TIERS = {
     # tables in the main pool, tables in the leading>=2 pool
     "quick": (1620, 54),
-    "thorough": (54 * 19 * 20, 54 * 6),
+    "thorough": (54 * 19 * 30, 54 * 6),
 }
 
 
@@ -888,7 +890,7 @@ def run(tier: str, seed: int) -> dict:
         lst = _pick(cands[clause])
         seen_keys = set()
         for _size_, desc, W, b in lst:
-            d2, W2, b2 = minimise(desc, W, clause)
+            d2, W2, b2 = minimise(desc, W, clause, deadline=t0 + (22 if tier == "quick" else 540))
             if b2 is None:
                 d2, W2, b2 = desc, W, b
             an = analyse(d2)
